@@ -102,7 +102,7 @@ let judge c obs =
         | Full -> not (ckpt k) && slot_ok k | Restore -> not (ckpt k) | Rump | Incr -> not (ckpt k && keyfilter))) c.pop in
   let model = List.filter (fun (db, k) -> match c.path with
       | Full -> path_full mf (z_of_int db) (bs k) | Restore -> path_restore mf (z_of_int db) (bs k) | Rump -> path_rump mf (z_of_int db) (bs k)
-      | Incr -> path_incr (Incrgen.model_cfg_raw { Incrgen.dbblack = f.dbblack; dbwhite = f.dbwhite; keyblack = f.keyblack; keywhite = f.keywhite; lua = f.lua; tdb = -1; resume = false; scount = 100; ssize = 1000000 })
+      | Incr -> path_incr (Incrgen.model_cfg { Incrgen.dbblack = f.dbblack; dbwhite = f.dbwhite; keyblack = f.keyblack; keywhite = f.keywhite; lua = f.lua; tdb = -1; resume = false; scount = 100; ssize = 1000000 })
                   (z_of_int db) { r_cmd = bs "set"; r_args = [ bs k; bs "v" ]; r_end = Z0 }) c.pop in
   let showp l = String.concat " " (List.map (fun (d, k) -> Printf.sprintf "db%d/%S" d k) (List.sort compare l)) in
   if Srcgen.field obs "abort" <> None || Srcgen.field obs "panic" <> None then fail "oracle" "abort" (showp want) impl "the run aborted" else
